@@ -37,16 +37,17 @@ CONSTANTS
     MaxOps,        \* bound on derived operations (concat/subrange/map/copy_region/flatten)
     MaxDepth,      \* bound on the depth of the operation tree of an object
     OpSet,         \* subset of {"concat","subrange","map","region","flatten"}
-    Lifetimes,     \* TRUE: retain/release interleaved freely with the operations (all orders);
-                   \* FALSE: build first, then release all client references in an order derived from `salt`
+    Lifetimes,     \* TRUE: retain/release are actions, interleaved freely with the operations (all orders);
+                   \* FALSE: the tree is built first; the release of all client references, in an order
+                   \*   derived from `salt`, is the "release tail" of every complete build (ReleaseTail)
     MaxRetains,    \* bound on explicit dispatch_retain calls (Lifetimes only)
     Connected,     \* TRUE: prune op sequences that cannot end as ONE operation tree (every result used later)
     EmptyOperand,  \* TRUE: dispatch_data_empty may be passed as an operand
     KeepHist,      \* TRUE: carry the serialised behaviour in `hist`
     Mut            \* "none" or the name of a spec mutation (non-vacuity)
 
-VARIABLES heap, bufs, rc, err, client, phase, nleaves, nops, nret, unused, salt, lastop, hist
-vars == <<heap, bufs, rc, err, client, phase, nleaves, nops, nret, unused, salt, lastop, hist>>
+VARIABLES heap, bufs, rc, err, client, nleaves, nops, nret, unused, salt, lastop, hist
+vars == <<heap, bufs, rc, err, client, nleaves, nops, nret, unused, salt, lastop, hist>>
 
 E      == 1      \* dispatch_data_empty
 UNINIT == 254    \* a byte malloc() returned and nobody wrote
@@ -291,17 +292,18 @@ FlattenAlg(m, d) ==
 (* ====================================================================================== *)
 MaxLeaves == Len(LeafLens)
 Pad(s, n) == s \o [i \in 1..(n - Len(s)) |-> 0]
-Held == {d \in 2..Len(heap) : client[d] > 0}
+HeldIn(cl) == {d \in 2..Len(cl) : cl[d] > 0}
+Held == HeldIn(client)
 Operands == Held \cup (IF EmptyOperand THEN {E} ELSE {})
-Building == phase = "build" /\ nleaves >= 1 /\ nops < MaxOps
+Building == nleaves >= 1 /\ nops < MaxOps
 
 Init ==
     /\ heap = <<EmptyObj>> /\ bufs = <<>> /\ rc = <<0>> /\ err = {}
-    /\ client = <<0>> /\ phase = "build" /\ nleaves = 0 /\ nops = 0 /\ nret = 0 /\ unused = {}
-    /\ salt = 0 /\ lastop = [op |-> "init"] /\ hist = <<>>
+    /\ client = <<0>> /\ nleaves = 0 /\ nops = 0 /\ nret = 0 /\ unused = {}
+    /\ salt = 0 /\ lastop = [op |-> "init", n0 |-> 0] /\ hist = <<>>
 
 (* ---- serialisation of a step and of the expected projection, as a flat sequence of naturals ----
-   (read by harness/drv_data.c; layout documented there and in tools/props/C13.py)               *)
+   (read by harness/drv_data.c, layout documented there)                                         *)
 RECURSIVE Cat(_, _, _)
 Cat(f, i, n) == IF i > n THEN <<>> ELSE f[i] \o Cat(f, i + 1, n)
 OpCode(o) == CASE o = "leaf" -> 1 [] o = "concat" -> 2 [] o = "subrange" -> 3 [] o = "map" -> 4
@@ -329,13 +331,13 @@ Desc(m, d) ==
        \o (IF mp.res = E THEN <<0, 0, 0>> ELSE IF mp.res = d THEN <<1, mp.owner, mp.start>> ELSE <<2, 0, 0>>)
        \o <<o.size + 2>> \o Cat(reg, 1, o.size + 2)
 
-\* the step `op` led from the current state to machine state m / client references cl
-StepCode(m, cl, op) ==
-    LET n0   == Len(heap)
+\* the step `op` led from machine state m0 to machine state m / client references cl
+StepCode(m0, m, cl, op) ==
+    LET n0   == Len(m0.heap)
         n1   == Len(m.heap)
         fresh == {d \in 1..n1 : d > n0}
         chg  == IF op.op = "flatten"
-                THEN {d \in 2..n0 : m.heap[d].live /\ Desc(m, d) # Desc(M, d)} ELSE {}
+                THEN {d \in 2..n0 : m.heap[d].live /\ Desc(m, d) # Desc(m0, d)} ELSE {}
         ds   == fresh \cup chg
         x    == IF op.op \in {"map", "flatten"} THEN op.owner ELSE 0
         y    == IF op.op \in {"map", "flatten"} THEN op.start ELSE 0
@@ -348,13 +350,15 @@ StepCode(m, cl, op) ==
        \o <<Cardinality(ds)>>
        \o Cat([d \in 1..n1 |-> IF d \in ds THEN Desc(m, d) ELSE <<>>], 1, n1)
 
-Commit(m, res, op) ==
-    LET cl0 == Pad(client, Len(m.heap))
-        cl1 == IF res = E THEN cl0 ELSE [cl0 EXCEPT ![res] = @ + 1] IN
+Commit(m, res, op0) ==
+    LET op  == [op0 EXCEPT !.n0 = Len(heap)]
+        cl0 == Pad(client, Len(m.heap))
+        cl1 == IF res = E \/ op.op = "release" THEN cl0 ELSE [cl0 EXCEPT ![res] = @ + 1]
+        cl2 == IF op.op = "release" THEN [cl1 EXCEPT ![op.a] = @ - 1] ELSE cl1 IN
     /\ heap' = m.heap /\ bufs' = m.bufs /\ rc' = m.rc /\ err' = m.err
-    /\ client' = cl1
+    /\ client' = cl2
     /\ lastop' = op
-    /\ hist' = IF KeepHist THEN hist \o StepCode(m, cl1, op) ELSE hist
+    /\ hist' = IF KeepHist THEN hist \o StepCode(M, m, cl2, op) ELSE hist
     \* a new object's operation tree must not be deeper than MaxDepth
     /\ Len(m.heap) > Len(heap) => m.heap[Len(m.heap)].depth <= MaxDepth
 
@@ -365,38 +369,41 @@ DerivedOp(m, res, op, operands) ==
     /\ unused' = un
     /\ Connected => Cardinality(un) <= (MaxOps - (nops + 1)) + 1
     /\ salt' = (salt * 7 + op.a + 3 * op.b + 5 * op.c + res) % 5040
-    /\ UNCHANGED <<phase, nleaves, nret>>
+    /\ UNCHANGED <<nleaves, nret>>
 
 LeafContent(n, b) == [j \in 1..n |-> (16 * b + j) % 250]
 
 CreateLeaf ==
-    /\ phase = "build" /\ nops = 0 /\ nret = 0 /\ nleaves < MaxLeaves
+    /\ nops = 0 /\ nret = 0 /\ nleaves < MaxLeaves
     /\ \A d \in 2..Len(heap) : client[d] > 0          \* nothing released yet
     /\ \E n \in LeafLens[nleaves + 1], k \in LeafKinds[nleaves + 1] :
        \E content \in (IF Alphabet = {} THEN {LeafContent(n, Len(bufs) + 1)} ELSE [1..n -> Alphabet]) :
           LET r == LeafAlg(M, content, k) IN
-          /\ Commit(r.m, r.res, [op |-> "leaf", a |-> n, b |-> r.buf, c |-> 0, kind |-> k, res |-> r.res, aux |-> 0])
+          /\ Commit(r.m, r.res, [op |-> "leaf", a |-> n, b |-> r.buf, c |-> 0, kind |-> k, res |-> r.res,
+                                 aux |-> 0, n0 |-> 0])
           /\ nleaves' = nleaves + 1
-          /\ UNCHANGED <<phase, nops, nret, unused, salt>>
+          /\ UNCHANGED <<nops, nret, unused, salt>>
 
 Concat ==
     /\ Building /\ "concat" \in OpSet
     /\ \E a \in Operands, b \in Operands :
           LET r == ConcatAlg(M, a, b) IN
-          DerivedOp(r.m, r.res, [op |-> "concat", a |-> a, b |-> b, c |-> 0, res |-> r.res, aux |-> 0], {a, b})
+          DerivedOp(r.m, r.res, [op |-> "concat", a |-> a, b |-> b, c |-> 0, res |-> r.res, aux |-> 0, n0 |-> 0],
+                    {a, b})
 
 Subrange ==
     /\ Building /\ "subrange" \in OpSet
     /\ \E a \in Operands :
        \E off \in 0..(heap[a].size + 1), len \in 0..(heap[a].size + 1) :
           LET r == SubrangeAlg(M, a, off, len) IN
-          DerivedOp(r.m, r.res, [op |-> "subrange", a |-> a, b |-> off, c |-> len, res |-> r.res, aux |-> 0], {a})
+          DerivedOp(r.m, r.res, [op |-> "subrange", a |-> a, b |-> off, c |-> len, res |-> r.res, aux |-> 0,
+                                 n0 |-> 0], {a})
 
 Map ==
     /\ Building /\ "map" \in OpSet
     /\ \E a \in Operands :
           LET r == MapAlg(M, a) IN
-          DerivedOp(r.m, r.res, [op |-> "map", a |-> a, b |-> 0, c |-> 0, res |-> r.res, aux |-> 0,
+          DerivedOp(r.m, r.res, [op |-> "map", a |-> a, b |-> 0, c |-> 0, res |-> r.res, aux |-> r.size, n0 |-> 0,
                                  owner |-> r.owner, start |-> r.start, size |-> r.size], {a})
 
 Region ==
@@ -404,60 +411,65 @@ Region ==
     /\ \E a \in Operands :
        \E loc \in 0..(heap[a].size + 1) :
           LET r == CopyRegionAlg(M, a, loc) IN
-          DerivedOp(r.m, r.res, [op |-> "region", a |-> a, b |-> loc, c |-> 0, res |-> r.res, aux |-> r.off], {a})
+          DerivedOp(r.m, r.res, [op |-> "region", a |-> a, b |-> loc, c |-> 0, res |-> r.res, aux |-> r.off,
+                                 n0 |-> 0], {a})
 
 \* SPI: flattens in place; yields no object (res = E: the client gets no reference)
 Flatten ==
     /\ Building /\ "flatten" \in OpSet
     /\ \E a \in Held :
-          /\ ~Leaf(heap[a]) /\ heap[a].nrec > 1 /\ heap[a].buf = 0
+          /\ heap[a].nrec > 1 /\ heap[a].buf = 0
           /\ LET r == FlattenAlg(M, a) IN
-             /\ Commit(r.m, E, [op |-> "flatten", a |-> a, b |-> 0, c |-> 0, res |-> E, aux |-> 0,
+             /\ Commit(r.m, E, [op |-> "flatten", a |-> a, b |-> 0, c |-> 0, res |-> E, aux |-> 0, n0 |-> 0,
                                 owner |-> r.owner, start |-> r.start])
              /\ nops' = nops + 1
-             /\ UNCHANGED <<phase, nleaves, nret, unused, salt>>
+             /\ UNCHANGED <<nleaves, nret, unused, salt>>
 
+\* dispatch_retain / dispatch_release by the client, any held reference, any time (Lifetimes)
 ClientRetain ==
-    /\ Lifetimes /\ phase = "build" /\ nret < MaxRetains
+    /\ Lifetimes /\ nret < MaxRetains
     /\ \E a \in Held :
-          /\ Commit(Retain(M, a), a, [op |-> "retain", a |-> a, b |-> 0, c |-> 0, res |-> a, aux |-> 0])
+          /\ Commit(Retain(M, a), a, [op |-> "retain", a |-> a, b |-> 0, c |-> 0, res |-> a, aux |-> 0, n0 |-> 0])
           /\ nret' = nret + 1
-          /\ UNCHANGED <<phase, nleaves, nops, unused, salt>>
-
-\* dispatch_release of one client reference
-DoRelease(a, ph, s) ==
-    LET m   == Release(M, a)
-        cl1 == [client EXCEPT ![a] = @ - 1]
-        op  == [op |-> "release", a |-> a, b |-> 0, c |-> 0, res |-> E, aux |-> 0] IN
-    /\ heap' = m.heap /\ bufs' = m.bufs /\ rc' = m.rc /\ err' = m.err
-    /\ client' = cl1 /\ lastop' = op
-    /\ hist' = IF KeepHist THEN hist \o StepCode(m, cl1, op) ELSE hist
-    /\ phase' = ph /\ salt' = s
-    /\ UNCHANGED <<nleaves, nops, nret, unused>>
-
-\* Lifetimes: any held reference, any time after the first leaf
+          /\ UNCHANGED <<nleaves, nops, unused, salt>>
+ReleaseOp(a) == [op |-> "release", a |-> a, b |-> 0, c |-> 0, res |-> E, aux |-> 0, n0 |-> 0]
 ClientRelease ==
     /\ Lifetimes /\ nleaves >= 1
-    /\ \E a \in Held : DoRelease(a, "build", salt)
+    /\ \E a \in Held :
+          /\ Commit(Release(M, a), E, ReleaseOp(a))
+          /\ UNCHANGED <<nleaves, nops, nret, unused, salt>>
 
-\* ~Lifetimes: when the tree is built, drop every reference in the order encoded by salt
-RECURSIVE Nth(_, _)
-Nth(S, k) == LET x == CHOOSE x \in S : \A y \in S : x <= y IN IF k = 0 THEN x ELSE Nth(S \ {x}, k - 1)
-FinalRelease ==
-    /\ ~Lifetimes /\ nleaves >= 1 /\ Held # {}
-    /\ phase = "release" \/ nops = MaxOps
-    /\ LET k == Cardinality(Held) IN DoRelease(Nth(Held, salt % k), "release", salt \div k)
-
-Next == CreateLeaf \/ Concat \/ Subrange \/ Map \/ Region \/ Flatten \/ ClientRetain \/ ClientRelease \/ FinalRelease
+Next == CreateLeaf \/ Concat \/ Subrange \/ Map \/ Region \/ Flatten \/ ClientRetain \/ ClientRelease
 Spec == Init /\ [][Next]_vars
 
-\* a complete behaviour: every client reference has been dropped
-Terminal == nleaves >= 1 /\ Held = {} /\ (Lifetimes \/ phase = "release" \/ nops = MaxOps \/ nleaves = MaxLeaves)
+\* a complete behaviour (Lifetimes): every client reference has been dropped
+Terminal == Lifetimes /\ nleaves >= 1 /\ Held = {}
+\* a complete build (~Lifetimes): followed by its release tail
+BuildComplete == ~Lifetimes /\ nleaves >= 1 /\ (nops = MaxOps \/ (Held = {} /\ nleaves = MaxLeaves))
+
+\* the release tail: drop every client reference, in the order encoded by `salt`
+RECURSIVE Nth(_, _)
+Nth(S, k) == LET x == CHOOSE x \in S : \A y \in S : x <= y IN IF k = 0 THEN x ELSE Nth(S \ {x}, k - 1)
+RECURSIVE RelTail(_, _, _)
+RelTail(m, cl, s) ==
+    LET H == HeldIn(cl) IN
+    IF H = {} THEN <<>>
+    ELSE LET k   == Cardinality(H)
+             a   == Nth(H, s % k)
+             m2  == Release(m, a)
+             cl2 == [cl EXCEPT ![a] = @ - 1]
+         IN <<[m0 |-> m, m |-> m2, cl |-> cl2, a |-> a]>> \o RelTail(m2, cl2, s \div k)
+TailCodes ==
+    LET T == RelTail(M, client, salt) IN
+    Cat([i \in 1..Len(T) |-> StepCode(T[i].m0, T[i].m, T[i].cl, ReleaseOp(T[i].a))], 1, Len(T))
 
 (* ====================================================================================== *)
 (* Invariants: the transcribed algorithms against the reference meaning                   *)
 (* ====================================================================================== *)
-Live == {d \in 1..Len(heap) : heap[d].live}
+LiveIn(m) == {d \in 1..Len(m.heap) : m.heap[d].live}
+Live == LiveIn(M)
+\* objects created (or, flatten: possibly changed) by the last step; all others are immutable
+FreshLive == IF lastop.op = "flatten" THEN Live ELSE {d \in Live : d > lastop.n0}
 
 TypeOK ==
     /\ Len(rc) = Len(heap) /\ Len(client) = Len(heap)
@@ -469,21 +481,22 @@ NoErr == err = {}
 \* "never reads outside the represented bytes", bookkeeping half: every record of a live object
 \* lies inside the object it references, is not empty ("it is forbidden to ... ignore entire
 \* records"), and references a live object
-RecordsInRange ==
-    \A d \in Live : \A i \in 1..Len(heap[d].recs) :
-        LET r == heap[d].recs[i] IN
-        /\ r.obj # E /\ r.obj < d /\ heap[r.obj].live
-        /\ r.len > 0 /\ r.from + r.len <= heap[r.obj].size
+RecordsInRangeAt(m) ==
+    \A d \in LiveIn(m) : \A i \in 1..Len(m.heap[d].recs) :
+        LET r == m.heap[d].recs[i] IN
+        /\ r.obj # E /\ r.obj < d /\ m.heap[r.obj].live
+        /\ r.len > 0 /\ r.from + r.len <= m.heap[r.obj].size
+RecordsInRange == RecordsInRangeAt(M)
 
-\* depth is never more than one (records reference leaves), unless the SPI flattened a composite
+\* depth is never more than one (records reference leaves), unless the SPI flattened a composite;
+\* composites made by concat/subrange have at least two records
 DepthOne ==
     \A d \in Live : \A i \in 1..Len(heap[d].recs) :
         LET t == heap[heap[d].recs[i].obj] IN Leaf(t) \/ ("flatten" \in OpSet /\ t.buf # 0)
 
-\* trivial subranges are only ever made by the leaf case / copy_region; composites have >= 2 records
 \* dispatch_data_get_size = length of the denoted string; leaves own a buffer of exactly that size
 SizeIsLength ==
-    \A d \in Live :
+    \A d \in FreshLive :
         /\ heap[d].size = Len(Bytes(M, d))
         /\ (d # E /\ Leaf(heap[d])) => heap[d].buf # 0 /\ Len(bufs[heap[d].buf].content) = heap[d].size
         /\ d # E => heap[d].size > 0                     \* the only empty object is the singleton
@@ -501,33 +514,30 @@ OpLaw ==
                ELSE LET c == bufs[heap[lastop.owner].buf].content IN
                     /\ lastop.start + lastop.size <= Len(c)
                     /\ Slice(c, lastop.start, lastop.size) = Bytes(M, lastop.a)
-            \* "a contiguous copy or view": the result is a leaf or a trivial subrange of one
-            /\ heap[lastop.res].nrec <= 1
+            \* "a contiguous copy or view": a leaf, a trivial subrange of one, or a flattened object
+            /\ heap[lastop.res].nrec <= 1 \/ heap[lastop.res].buf # 0
       [] lastop.op = "region"   ->
             LET s == Bytes(M, lastop.a)
-                g == Bytes(M, lastop.res) IN
+                g == Bytes(M, lastop.res)
+                T == ApplyAlg(M, lastop.a, 0).tiles IN
             IF lastop.b >= Len(s) THEN lastop.res = E /\ lastop.aux = Len(s)
             ELSE /\ lastop.aux <= lastop.b /\ lastop.b < lastop.aux + Len(g)      \* contains the location
                  /\ g = Slice(s, lastop.aux, Len(g)) /\ lastop.aux + Len(g) <= Len(s)
-                 /\ heap[lastop.res].nrec <= 1                                  \* one contiguous region
+                 /\ heap[lastop.res].nrec <= 1 \/ heap[lastop.res].buf # 0    \* one contiguous region
                  \* it is exactly the region dispatch_data_apply reports there
-                 /\ \E k \in 1..Len(ApplyAlg(M, lastop.a, 0).tiles) :
-                        LET t == ApplyAlg(M, lastop.a, 0).tiles[k] IN
-                        t.off = lastop.aux /\ t.len = Len(g)
+                 /\ \E k \in 1..Len(T) : T[k].off = lastop.aux /\ T[k].len = Len(g)
       [] lastop.op = "flatten"  ->
             lastop.owner # 0 /\
             LET c == bufs[heap[lastop.owner].buf].content IN
             Slice(c, lastop.start, heap[lastop.a].size) = Bytes(M, lastop.a)
       [] OTHER -> TRUE
 
-\* dispatch_data_apply on every live object: consecutive regions tiling the string in order, each
-\* inside a live buffer; stopping early visits exactly a prefix
-RECURSIVE TilesFrom(_, _, _, _)
-TilesFrom(m, tiles, k, off) ==
-    IF k > Len(tiles) THEN <<>>
-    ELSE TileBytes(m, tiles[k]) \o TilesFrom(m, tiles, k + 1, off + tiles[k].len)
+\* dispatch_data_apply: consecutive regions tiling the string in order, each inside a live buffer;
+\* an applier returning false stops the traversal after exactly that callback
+RECURSIVE TilesFrom(_, _, _)
+TilesFrom(m, tiles, k) == IF k > Len(tiles) THEN <<>> ELSE TileBytes(m, tiles[k]) \o TilesFrom(m, tiles, k + 1)
 Tiling ==
-    \A d \in Live :
+    \A d \in FreshLive :
         LET ap == ApplyAlg(M, d, 0)
             T  == ap.tiles IN
         /\ ap.ok
@@ -537,30 +547,51 @@ Tiling ==
               /\ T[k].start + T[k].len <= Len(bufs[T[k].buf].content)       \* never reads outside
               /\ bufs[T[k].buf].dtor = 0                                     \* ... nor freed memory
               /\ heap[T[k].region].live
-        /\ TilesFrom(M, T, 1, 0) = Bytes(M, d)
+        /\ TilesFrom(M, T, 1) = Bytes(M, d)
         /\ \A s \in 1..Len(T) :
               LET aps == ApplyAlg(M, d, s) IN ~aps.ok /\ aps.tiles = SubSeq(T, 1, s)
 
 \* the ledger: refcount = client references + records of live objects
-RefsFromRecords(d) ==
-    LET pairs == {<<x, i>> \in (Live \X (1..8)) : i <= Len(heap[x].recs) /\ heap[x].recs[i].obj = d}
-    IN Cardinality(pairs)
-MaxRecs == \A d \in Live : Len(heap[d].recs) <= 8
-Ledger ==
-    /\ MaxRecs
-    /\ \A d \in 2..Len(heap) :
-        IF heap[d].live THEN rc[d] > 0 /\ rc[d] = client[d] + RefsFromRecords(d)
-        ELSE rc[d] = 0 /\ client[d] = 0
+LedgerAt(m, cl) ==
+    LET L == LiveIn(m)
+        refs(d) == Cardinality({<<x, i>> \in (L \X (1..12)) : i <= Len(m.heap[x].recs) /\ m.heap[x].recs[i].obj = d})
+    IN /\ \A d \in L : Len(m.heap[d].recs) <= 12
+       /\ \A d \in 2..Len(m.heap) :
+            IF m.heap[d].live THEN m.rc[d] > 0 /\ m.rc[d] = cl[d] + refs(d)
+            ELSE m.rc[d] = 0 /\ cl[d] = 0
+Ledger == LedgerAt(M, client)
 
 \* a buffer's destructor runs at most once, and only when its object is disposed, which (Ledger,
-\* RecordsInRange) is only after every object derived from it has been released
-Owner(b) == {d \in 1..Len(heap) : heap[d].buf = b}
-Destructors ==
-    \A b \in 1..Len(bufs) :
-        /\ bufs[b].dtor <= 1
-        /\ bufs[b].dtor = 1 => \A d \in Owner(b) : ~heap[d].live
-        /\ bufs[b].dtor = 0 => (Owner(b) # {} /\ \E d \in Owner(b) : heap[d].live)     \* ... exactly once: no leak
-\* in particular: once the client has dropped everything, everything is gone
-AllGone == Held = {} => (Live = {E} /\ \A b \in 1..Len(bufs) : bufs[b].dtor = 1)
+\* RecordsInRange) is only after every object derived from it has been released; no buffer leaks
+DestructorsAt(m) ==
+    \A b \in 1..Len(m.bufs) :
+        LET own == {d \in 1..Len(m.heap) : m.heap[d].buf = b} IN
+        /\ m.bufs[b].dtor <= 1
+        /\ m.bufs[b].dtor = 1 => \A d \in own : ~m.heap[d].live
+        /\ m.bufs[b].dtor = 0 => \E d \in own : m.heap[d].live
+Destructors == DestructorsAt(M)
+
+\* stated directly on the property's words: whatever the client still holds only reaches memory
+\* whose destructor has not run
+RECURSIVE Footprint(_, _)
+Footprint(m, d) ==
+    LET o == m.heap[d] IN
+    (IF o.buf # 0 THEN {o.buf} ELSE {}) \cup UNION {Footprint(m, o.recs[i].obj) : i \in 1..Len(o.recs)}
+NoUseAfterDestructorAt(m, cl) == \A d \in HeldIn(cl) : \A b \in Footprint(m, d) : m.bufs[b].dtor = 0
+NoUseAfterDestructor == NoUseAfterDestructorAt(M, client)
+
+\* once the client has dropped everything, everything is gone: every destructor has run exactly once
+AllGoneAt(m, cl) == HeldIn(cl) = {} => (LiveIn(m) = {E} /\ \A b \in 1..Len(m.bufs) : m.bufs[b].dtor = 1)
+AllGone == AllGoneAt(M, client)
+
+\* ~Lifetimes: the same ledger / destructor invariants in every state of the release tail
+ReleaseTail ==
+    BuildComplete =>
+        LET T == RelTail(M, client, salt) IN
+        /\ \A i \in 1..Len(T) :
+              /\ T[i].m.err = {}
+              /\ RecordsInRangeAt(T[i].m) /\ LedgerAt(T[i].m, T[i].cl) /\ DestructorsAt(T[i].m)
+              /\ NoUseAfterDestructorAt(T[i].m, T[i].cl) /\ AllGoneAt(T[i].m, T[i].cl)
+        /\ Len(T) > 0 => HeldIn(T[Len(T)].cl) = {}
 
 =============================================================================
